@@ -248,7 +248,10 @@ func show(x interface{}) {
 // itself, so that a replayed program is rendered identically. Pinned witnesses (named programs) and
 // GOCORE_PLAIN=1 keep the canonical spelling. The meaning is the same by the language specification;
 // the native build of the rendered source stands behind every disagreement (SPEC-ERROR otherwise).
-type styler struct{ s, n uint64 }
+type styler struct {
+	s, n uint64
+	arr  int // where the package-level array lives: 0 a variable, 1 a field of a struct variable, 2 an element of an array variable
+}
 
 func (st *styler) pick(k int) int {
 	if st == nil || st.s == 0 {
@@ -280,7 +283,45 @@ func (p *Prog) styler(salt uint64) *styler {
 			h.Write(fb)
 		}
 	}
-	return &styler{s: h.Sum64() ^ salt | 1}
+	return &styler{s: h.Sum64() ^ salt | 1, arr: int((h.Sum64() >> 33) % 3)}
+}
+
+// arrNames: the spellings of the package-level array of the model. The specification knows one array
+// variable; whether it is a variable of its own, a field or an element of another variable is concrete
+// syntax (the operand of range, index expressions and assignments are selector or index expressions then).
+var arrNames = []string{"arr", "ga.arr", "gaa[0]"}
+
+var arrDecls = []string{"var arr = [2]int{5, 6}\n", "var ga = struct{ arr [2]int }{[2]int{5, 6}}\n", "var gaa = [1][2]int{{5, 6}}\n"}
+
+func arrName() string {
+	if style == nil {
+		return "arr"
+	}
+	return arrNames[style.arr]
+}
+
+// ArrName is the spelling of the package-level array in this program.
+func (p *Prog) ArrName() string {
+	if st := p.styler(0); st != nil {
+		return arrNames[st.arr]
+	}
+	return "arr"
+}
+
+// VarDecls is the declaration of the package-level variables of this program.
+func (p *Prog) VarDecls() string {
+	k := 0
+	if st := p.styler(0); st != nil {
+		k = st.arr
+	}
+	return "var g0, g1 = 1, 2\nvar t = T{3, 4}\n" + arrDecls[k]
+}
+
+// PreludeSrc is Prelude with the array declared where this program has it.
+func (p *Prog) PreludeSrc() string {
+	n := p.ArrName()
+	s := strings.Replace(Prelude, "var g0, g1 = 1, 2\nvar t = T{3, 4}\nvar arr = [2]int{5, 6}\n", p.VarDecls(), 1)
+	return strings.Replace(s, "arr[0], arr[1])", n+"[0], "+n+"[1])", 1)
 }
 
 type rend struct {
@@ -345,7 +386,7 @@ func Expr(e *N) string {
 	case "fld":
 		return "t." + e.F
 	case "idx":
-		return "arr[" + idx(e.I) + "]"
+		return arrName() + "[" + idx(e.I) + "]"
 	case "bin":
 		switch e.Op {
 		case "add":
@@ -646,9 +687,9 @@ func (r *rend) stmt(s *N) {
 	case "tlit":
 		r.line("t = T{%s, %s}", Expr(s.A), Expr(s.B))
 	case "iset":
-		r.line("arr[%s] = %s", idx(s.I), Expr(s.E))
+		r.line("%s[%s] = %s", arrName(), idx(s.I), Expr(s.E))
 	case "iop":
-		r.line("arr[%s] += %s", idx(s.I), Expr(s.E))
+		r.line("%s[%s] += %s", arrName(), idx(s.I), Expr(s.E))
 	case "print":
 		r.line("fmt.Println(\"p\", %d, %s)", s.ID, Expr(s.E))
 	case "printg":
@@ -754,7 +795,7 @@ func (r *rend) stmt(s *N) {
 	case "printsl":
 		r.line("fmt.Println(\"s\", %s[0], %s[1], %s[2])", s.S, s.S, s.S)
 	case "iswap":
-		r.line("arr[0], arr[1] = arr[1], arr[0]")
+		r.line("%[1]s[0], %[1]s[1] = %[1]s[1], %[1]s[0]", arrName())
 	case "mkptr":
 		r.line("%s := &%s", s.P, s.X())
 		r.line("_ = %s", s.P)
@@ -904,7 +945,7 @@ func (r *rend) stmt(s *N) {
 			r.line("%s = make(map[int]int)", s.S)
 		}
 	case "asgidx":
-		dst := "arr[" + idx(&N{K: "var", RawX: s.RawX}) + "]"
+		dst := arrName() + "[" + idx(&N{K: "var", RawX: s.RawX}) + "]"
 		if s.S != "" {
 			dst = s.S + "[" + key(&N{K: "var", RawX: s.RawX}) + "]"
 			if s.Bare {
@@ -1128,7 +1169,7 @@ func (r *rend) stmt(s *N) {
 		_, restore := r.pushLabel(s)
 		over := s.S
 		if s.K == "rngarr" {
-			over = "arr"
+			over = arrName()
 		}
 		r.line("for %s, %s := range %s {", s.V_(), s.VV, over)
 		r.ind++
@@ -1209,7 +1250,7 @@ func (p *Prog) MainStmts() []string {
 // Source renders the whole program.
 func (p *Prog) Source() string {
 	var sb strings.Builder
-	sb.WriteString(Prelude)
+	sb.WriteString(p.PreludeSrc())
 	sb.WriteString("\n")
 	sb.WriteString(p.FuncDecls())
 	sb.WriteString("\nfunc main() {\n")
